@@ -32,9 +32,11 @@
 (* are two independent formulations and must agree; anthem's own output is *)
 (* compared with both.                                                     *)
 (***************************************************************************)
-EXTENDS Integers, Sequences, TLC
+EXTENDS Analysis, Integers, Sequences, TLC
 
 W(k) == "W" \o ToString(k)
+RECURSIVE SetToSeqOrd(_)
+SetToSeqOrd(S) == IF S = {} THEN <<>> ELSE LET m == CHOOSE x \in S : \A y \in S : x <= y IN <<m>> \o SetToSeqOrd(S \ {m})
 GVar(n) == [k |-> "var", v |-> n, s |-> "g"]
 IVar(n) == [k |-> "var", v |-> n, s |-> "i"]
 QV(n, s) == [n |-> n, s |-> s]
@@ -117,6 +119,43 @@ RefTau(r) ==
               hd == FAtom(r.head.a.p, vs)
               extra == IF r.head.k = "choice" THEN <<[k |-> "not", f |-> [k |-> "not", f |-> hd]]>> ELSE <<>>
           IN Close([j \in 1..n |-> QV(W(j), "g")] \o xs, [k |-> "imp", l |-> ConjAll(hv.fs \o b.fs \o extra), r |-> hd])
+
+\* ---------------------------------------------------------------- the natural translation of a REGULAR rule (natural.rs)
+\* Terms of the first kind are translated as they stand; a variable is of sort integer iff it occurs somewhere in the rule below an
+\* operation, or on the left of a comparison  t = t2..t3.  An interval in the head becomes a fresh integer variable N with
+\* t1 <= N <= t2 in front of the head;  t = t2..t3  in the body becomes  t2 <= t <= t3;  {A} becomes  A or not A.
+RECURSIVE AllVarsT(_)
+AllVarsT(t) == CASE t.k = "var" -> {t.v} [] t.k \in {"num", "sym", "inf", "sup"} -> {} [] t.k = "neg" -> AllVarsT(t.a) [] OTHER -> AllVarsT(t.l) \cup AllVarsT(t.r)
+UnderOp(t) == IF IsLeaf(t) THEN {} ELSE AllVarsT(t)
+RuleTerms(r) == (IF r.head.k = "falsity" THEN {} ELSE {r.head.a.args[i] : i \in DOMAIN r.head.a.args})
+                \cup UNION {IF r.body[i].k = "lit" THEN {r.body[i].a.args[j] : j \in DOMAIN r.body[i].a.args} ELSE {r.body[i].l, r.body[i].rt} : i \in DOMAIN r.body}
+IntVarsOf(r) == UNION {UnderOp(t) : t \in RuleTerms(r)}
+                \cup UNION {IF r.body[i].k = "cmp" /\ r.body[i].r = "eq" /\ SecondKind(r.body[i].rt) THEN AllVarsT(r.body[i].l) ELSE {} : i \in DOMAIN r.body}
+RECURSIVE P2FI(_)
+P2FI(t) == CASE t.k = "var" -> IVar(t.v) [] t.k = "num" -> t [] t.k = "neg" -> [k |-> "neg", a |-> P2FI(t.a)] [] OTHER -> [k |-> t.k, l |-> P2FI(t.l), r |-> P2FI(t.r)]
+P2F(t, iv) == IF t.k = "var" THEN (IF t.v \in iv THEN IVar(t.v) ELSE GVar(t.v)) ELSE IF IsLeaf(t) THEN t ELSE P2FI(t)
+NatBody(b, iv) ==
+  IF b.k = "lit" THEN Signed(b.sign, FAtom(b.a.p, [j \in DOMAIN b.a.args |-> P2F(b.a.args[j], iv)]))
+  ELSE IF b.r = "eq" /\ SecondKind(b.rt)
+       THEN [k |-> "cmp", t |-> P2F(b.rt.l, iv), g |-> <<[r |-> "le", t |-> P2F(b.l, iv)], [r |-> "le", t |-> P2F(b.rt.r, iv)]>>]
+       ELSE Cmp1(P2F(b.l, iv), b.r, P2F(b.rt, iv))
+RefNatural(r) ==
+  LET iv == IntVarsOf(r)
+      body == ConjAll([i \in DOMAIN r.body |-> NatBody(r.body[i], iv)])
+      head == IF r.head.k = "falsity" THEN [k |-> "false"]
+              ELSE LET args == r.head.a.args
+                       ivl == {j \in DOMAIN args : SecondKind(args[j])}
+                       hargs == [j \in DOMAIN args |-> IF j \in ivl THEN IVar(W(j)) ELSE P2F(args[j], iv)]
+                       atom == FAtom(r.head.a.p, hargs)
+                       concl == IF r.head.k = "choice" THEN [k |-> "or", l |-> atom, r |-> [k |-> "not", f |-> atom]] ELSE atom
+                       js == SetToSeqOrd(ivl)
+                       conds == ConjAll([x \in DOMAIN js |-> [k |-> "cmp", t |-> P2F(args[js[x]].l, iv),
+                                                               g |-> <<[r |-> "le", t |-> IVar(W(js[x]))], [r |-> "le", t |-> P2F(args[js[x]].r, iv)]>>]])
+                   IN IF ivl = {} THEN concl
+                      ELSE [k |-> "forall", vars |-> [x \in DOMAIN js |-> QV(W(js[x]), "i")], f |-> [k |-> "imp", l |-> conds, r |-> concl]]
+      xs == [j \in DOMAIN r.vars |-> QV(r.vars[j], IF r.vars[j] \in iv THEN "i" ELSE "g")]
+      imp == [k |-> "imp", l |-> body, r |-> head]
+  IN IF xs = <<>> THEN imp ELSE [k |-> "forall", vars |-> xs, f |-> imp]
 
 \* ---------------------------------------------------------------- gamma (translating/classical_reduction/gamma.rs)
 \* gamma(p(t)) = hp(t);  gamma(not F) = not F^t;  gamma(F op G) = gamma(F) op gamma(G) for and / or;
